@@ -39,11 +39,11 @@ theorem supply_le_principal (cfg : Nat → Option Product) (hc : CfgOk cfg) (h :
 moves by exactly the change of recorded principal (plus outside funding). Interest and closing-fee transfers do not
 touch recorded principal, hence do not touch supply. -/
 theorem supply_moves_with_principal (cfg : Nat → Option Product) (hc : CfgOk cfg) (s s' : State) (e : Env) (m : Msg)
-    (hm : m.userOk) (hinv : Inv cfg s) (h : step cfg s e m = some s') (d : Nat) :
+    (hm : m.userOk) (hns : m.notSettle) (hinv : Inv cfg s) (h : step cfg s e m = some s') (d : Nat) :
     s'.supply d - s.supply d =
       (principalRecorded cfg s' d - principalRecorded cfg s d) + (s'.extSupply d - s.extSupply d) := by
   have h1 := hinv.2.2.2.2.1 d
-  have h2 := (step_inv cfg hc s s' e m hm hinv h).2.2.2.2.1 d
+  have h2 := (step_inv cfg hc s s' e m hm hns hinv h).2.2.2.2.1 d
   unfold SupplyAt at h1 h2
   omega
 
